@@ -103,14 +103,18 @@ class ClustererDouble:
 class FitDouble:
     """fit_mvstud double: remembers which points each fitted mode saw; mean encodes the fit number."""
 
-    def __init__(self, ctx=None, inf_dof=None):
+    def __init__(self, ctx=None, inf_dof=None, strict=False):
         self.fits = []
         self.ctx = ctx
         self.inf_dof = inf_dof
+        self.strict = strict  # enforce the precondition of the real fit: at least d + 1 distinct points
 
     def __call__(self, data, *a, **k):
         data = np.asarray(data, dtype=float)
         members = frozenset(np.round(data[:, 0], 9).tolist())
+        if self.strict and len({tuple(np.round(r, 12)) for r in data}) < data.shape[1] + 1:
+            # the real fit_mvstud solves with the sample covariance, which is singular for <= d distinct points
+            raise np.linalg.LinAlgError("Singular matrix")
         j = len(self.fits)
         self.fits.append(members)
         d = data.shape[1]
@@ -446,6 +450,55 @@ def make_two_iterations(cluster_every, npool, kmax, first_iter=3):
                              "every label pattern and resampling index in both iterations",
                       stubs=["clusterer -> contract double", "fit_mvstud -> tagged contract double", "np.random.choice -> symbolic indices / covering representative",
                              "parallel_mcmc -> recorder (identity move)"], theory="QF_LIA", max_paths=60000, max_decisions=400)
+
+
+def make_completes(cluster_every, npool, kmax):
+    """C18's running clause on the training/resampling/mutation steps: with valid options the steps must not raise, whatever partition
+    of the pool the clustering model predicts. The fit double enforces the precondition of the real `fit_mvstud` (at least d + 1
+    distinct points; the real code raises `LinAlgError: Singular matrix` otherwise)."""
+    n_particles = 1
+    W = np.array(POOL_W[npool])
+
+    def harness(ctx: PathCtx):
+        clusterer = ClustererDouble(ctx, kmax)
+        fitd = FitDouble(ctx, strict=True)
+        st, u = build_state(npool, n_particles, 2)
+        tr = train_mod.Trainer(state=st, pbar=None, clusterer=clusterer, cluster_every=cluster_every, clustering=True, TRIM_ESS=0.99, TRIM_BINS=50, DOF_FALLBACK=1e6)
+        try:
+            with patched(modes_mod, fit_mvstud=fitd, np=NpProxy(random=type("R", (), {"choice": staticmethod(choice_cover)})())):
+                tr.run(W.copy())
+        except np.linalg.LinAlgError as e:
+            X, lab = clusterer.training_labels()
+            ctx.fail("training-step-completes-for-every-partition-of-the-pool", f"LinAlgError: {e}; training labels {lab.tolist()} (a cluster with a single distinct point)")
+            return None
+        ctx.ok("training-step-completes-for-every-partition-of-the-pool")
+        return None
+
+    def replay(m, label, v):
+        """real Trainer, real ModeStatistics, real fit_mvstud; scripted clusterer that isolates one pool point"""
+        st, u = build_state(npool, n_particles, 2, d=2)
+        c2 = ClustererDouble(None, kmax, script={"K": 2, "by_point": lambda x: int(float(np.asarray(x).ravel()[0]) < 0.3)})
+        tr = train_mod.Trainer(state=st, pbar=None, clusterer=c2, cluster_every=cluster_every, clustering=True, TRIM_ESS=0.99, TRIM_BINS=50, DOF_FALLBACK=1e6)
+        s0 = np.random.get_state()
+        np.random.seed(0)
+        err = None
+        try:
+            with warnings.catch_warnings():
+                warnings.simplefilter("ignore")
+                tr.run(W.copy())
+        except Exception as e:
+            err = e
+        finally:
+            np.random.set_state(s0)
+        return {"reproduced": isinstance(err, np.linalg.LinAlgError), "signature": "Trainer.run:degenerate-cluster:LinAlgError", "payload": {"pool": u.tolist(), "error": repr(err)},
+                "what": f"Trainer.run on a pool of {npool} points of which the clustering model puts one into a cluster of its own: " +
+                        (f"raised {type(err).__name__}: {err} (the sampler run stops; seen in practice with a likelihood that is zero on 93% of the prior, 32 particles)" if err is not None else "completed")}
+
+    return Obligation(f"steps-complete-every{cluster_every}-pool{npool}-K{kmax}", harness, replay=replay,
+                      encodes=[train_mod.Trainer.run, ModeStatistics.from_particles],
+                      bounds=f"pool of {npool} points (one trimmed away), K <= {kmax} clusters, every label pattern",
+                      stubs=["clusterer -> contract double", "fit_mvstud -> contract double that enforces the real precondition (>= d+1 distinct points)", "np.random.choice -> covering representative"],
+                      theory="QF_LIA", max_paths=20000, max_decisions=400)
 
 
 def make_global(npool):
